@@ -111,9 +111,9 @@ func (c ConditionFunction) Evaluate(a interface{}, b interface{}) (bool, error) 
 	}
 	switch c {
 	case ConditionEqual:
-		return reflect.DeepEqual(a, b), nil
+		return equalValues(a, b), nil
 	case ConditionNotEqual:
-		return !reflect.DeepEqual(a, b), nil
+		return !equalValues(a, b), nil
 	case ConditionIncludes:
 		switch x.Kind() {
 		case reflect.Slice:
@@ -128,9 +128,9 @@ func (c ConditionFunction) Evaluate(a interface{}, b interface{}) (bool, error) 
 	case ConditionExcludes:
 		switch x.Kind() {
 		case reflect.Slice:
-			return !sliceContains(x, y), nil
+			return !sliceIntersects(x, y), nil
 		case reflect.Map:
-			return !mapContains(x, y), nil
+			return !mapIntersects(x, y), nil
 		case reflect.Int, reflect.Float64, reflect.Bool, reflect.String:
 			return !reflect.DeepEqual(a, b), nil
 		default:
@@ -181,6 +181,45 @@ func (c ConditionFunction) Evaluate(a interface{}, b interface{}) (bool, error) 
 	}
 	// we should never get here
 	return false, fmt.Errorf("unreachable condition")
+}
+
+// equalValues compares two native values. Sets and maps are compared by
+// content: the order of the elements of a set is irrelevant and a nil set or
+// map is the same as an empty one.
+func equalValues(a, b interface{}) bool {
+	x := reflect.ValueOf(a)
+	y := reflect.ValueOf(b)
+	switch x.Kind() {
+	case reflect.Slice:
+		return x.Len() == y.Len() && sliceContains(x, y) && sliceContains(y, x)
+	case reflect.Map:
+		return x.Len() == y.Len() && mapContains(x, y)
+	default:
+		return reflect.DeepEqual(a, b)
+	}
+}
+
+// sliceIntersects returns whether any of the elements of y is in x
+func sliceIntersects(x, y reflect.Value) bool {
+	for i := 0; i < y.Len(); i++ {
+		if sliceContains(x, y.Slice(i, i+1)) {
+			return true
+		}
+	}
+	return false
+}
+
+// mapIntersects returns whether any of the key-value pairs of y is in x
+func mapIntersects(x, y reflect.Value) bool {
+	iter := y.MapRange()
+	for iter.Next() {
+		single := reflect.MakeMap(y.Type())
+		single.SetMapIndex(iter.Key(), iter.Value())
+		if mapContains(x, single) {
+			return true
+		}
+	}
+	return false
 }
 
 func sliceContains(x, y reflect.Value) bool {
